@@ -4,17 +4,19 @@
 -/
 import Driver.Pure
 import Driver.Dna
+import Driver.DynArr
 
 open Jesse
 
 structure DState where
-  dummy : Unit := ()
+  da : Option Jesse.DynArray := none
 
 def step (s : DState) (line : String) : DState × String :=
   let toks := (line.trimAscii.toString.splitOn " ").filter (· ≠ "")
   match toks with
   | "call" :: fn :: args => (s, Driver.Pure.call fn args)
   | "dna" :: args => (s, Driver.Dna.handle args)
+  | "da" :: args => let (d, o) := Driver.DynArr.handle s.da args; ({ s with da := d }, o)
   | [] => (s, "")
   | _ => (s, "bad-op")
 
